@@ -60,6 +60,10 @@ CLAIMED["C09"] = dict(technique="zero-diagnostic oracle over (a) real-world corp
 CLAIMED["C10"] = dict(technique="robustness fuzzing with a crash oracle: rapid-generated annotated programs plus hand-written shape 'zoo' files, a skeleton whose comment slots carry rapid-generated annotation-fragment text, and standard-library packages with annotations injected through a go/packages overlay; in-process with recovered panics, through the binary and through go vet",
     text="Every analyzer Run is wrapped so that a panic is recovered, attributed and shrunk; the binary's and vet's stderr are scanned for panic / internal error / fatal error and the -json exit status must be 0. Inputs: generated multi-package programs with all annotation kinds extended by zoo files (generics, package-level initialisers of every shape, anonymous structs, embedded fields, type switches, labels, channels, method values, empty and comment-only files, 128 kB lines), a two-package skeleton with 45 comment slots filled from an annotation-fragment alphabet, and std packages with @-annotations injected on 35% of their top-level declarations and fields.",
     note="hang clause: a run slower than 60 s (in-process) / 120 s (external) is reported as inconclusive (exit 2), never as a violation; comment text that makes the skeleton uncompilable is dropped and counted; native go test -fuzz is not used (see DESIGN.md section 6)", ref="DESIGN.md section 3, C10")
+
+CLAIMED["C05"] = dict(technique="differential testing against go/types: rapid-generated interface / implementation programs from a signature grammar; expected IMPL01/02/03 and the list of missing methods computed with the type checker's own method sets and types.Identical",
+    text="Three-package programs (interface package with a possibly different declared name, imported plainly or under an alias; helper types and aliases; implementing package) are generated from a grammar of 29 parameter/result types incl. predeclared and declared aliases, pointer depths 1-3, composites, funcs, chans and variadics; each interface method is absent, identical in another spelling, minimally different, or promoted through embedded E / *E / interface, with value or pointer receivers and every qualifier / interface-name shape. The tool's verdict and its 'missing methods' list must equal what go/types says for the same program.",
+    note="oracle = the harness's own go/types pass over the generated program (method sets, types.Identical, cross-checked with types.Implements); unspecified shapes (qualifier equal to the declared name or last path element of an import bound under another name) are counted, not judged; generic and annotated interface types, unexported interface methods are not generated", ref="DESIGN.md section 3, C05")
 ALL = ["C%02d" % i for i in range(1, 20)]
 NA_REASON = {}
 def main():
